@@ -348,6 +348,7 @@ class FreshDriver(MachineDriver):
         g = self.m.game
         return (repr(sorted((k, repr(v)) for k, v in env.items() if k != "players")),
                 tuple(p["v"] for p in g.player_list) if g else None, g.player.index if g and g.player else None,
+                g.player.ball if g and g.player else None, g.balls_in_play if g else None, self.modes_fp(),
                 g.num_players if g else None, tuple(self.fired.values()), tuple(repr(x) for x in self.last))
 
     def observe(self):
